@@ -6,7 +6,9 @@
  *        without crossing an empty slot
  *   RI3  live keys are pairwise distinct
  *   RI4  at least one slot is empty (needed for lookups of absent keys to stop)
- * -DSTEP 0 lookup 1 insert 2 remove.  Hook: -DPIXMAN_VERIF_GLYPH_HIGH_WATER=4
+ * -DSTEP 0 lookup 1 insert 2 remove 3 clear_table 4 thaw that dumps the table
+ * (more tombstones than the high-water mark; for steps 3/4 the live entries of
+ * the pre-state are linked into the MRU list).  Hook: -DPIXMAN_VERIF_GLYPH_HIGH_WATER=4
  * (HASH_SIZE 8).  Probe loops that do not terminate within HASH_SIZE+1
  * iterations are reported as violations (unwinding assertions).            */
 #include "vp.h"
@@ -104,6 +106,9 @@ void harness (void)
 #else
     for (i = 0; i < HASH_SIZE; i++) { VP_SYM_IDX (hv, i); vp_rk[vp_rn] = (size_t) FONT + keys[i]; vp_rh[vp_rn++] = hv[i]; }
 #endif
+#if STEP >= 3
+    for (i = 0; i < HASH_SIZE; i++) if (sel[i] == 2) pixman_list_prepend (&C.mru, &pool[i].mru_link);
+#endif
     census (&ng, &nt); C.n_glyphs = ng; C.n_tombstones = nt; C.freeze_count = 1;
     vp_img_live = ng;
     VP_ASSUME (ri_holds (1));
@@ -140,6 +145,19 @@ void harness (void)
 	VP_ASSERT (ng + nt >= HASH_SIZE - 2, "insert is refused only when the table is (nearly) full");
 	VP_ASSERT (vp_img_live == ng, "refused insert leaks no image");
     }
+#elif STEP == 3 || STEP == 4
+#if STEP == 3
+    clear_table (&C);
+#else
+    VP_ASSUME (nt > N_GLYPHS_HIGH_WATER);	/* the branch of thaw that dumps the whole table; the eviction loop needs remove (not decided) */
+    pixman_glyph_cache_thaw (&C);
+    VP_ASSERT (C.freeze_count == 0, "thaw drops the freeze count");
+#endif
+    for (i = 0; i < HASH_SIZE; i++) VP_ASSERT (C.glyphs[i] == NULL, "dumping the table empties every slot (tombstones included)");
+    VP_ASSERT (C.n_glyphs == 0 && C.n_tombstones == 0, "counters equal the (empty) slot census after the dump");
+    VP_ASSERT (vp_img_live == 0, "every live entry's image released exactly once");
+    VP_ASSERT (C.mru.head == (pixman_link_t *) &C.mru && C.mru.tail == (pixman_link_t *) &C.mru, "MRU list empty after the dump");
+    VP_ASSERT (pixman_glyph_cache_lookup (&C, FONT, (void *) q) == NULL, "lookups terminate and find nothing in the dumped table");
 #else
 #ifdef QSLOT
     VP_ASSUME (qslot == QSLOT);		/* case split over the slot that holds the key (-1: absent) */
